@@ -283,7 +283,7 @@ PROPS["C11"]["thorough_engines"] = [replay_engine("ignorefiles", "globset_rule_b
     "the real GlobsetFilterer on 6 configurations (no patterns; ignores; ignores+filters; +extensions; a negated ignore pattern, alone and with filters+extensions) x all events of 1..2 paths over 7 file names x 3 file types (2772 events): the verdict equals the documented rule; watched-file and path-less events pass")]
 PROPS["C12"]["thorough_engines"] = [script_engine("cli_flag_sources.py", "cli_flag_sources", "C12.bounded.flags_remove_exactly_the_named_sources",
     "10 flag sets x 6 ignore sources (project .gitignore/.ignore, global git/watchexec ignore, --ignore-file, --ignore) on the real binary: each source is honoured exactly when no given flag names it")]
-PROPS["C14"]["thorough_engines"] = [replay_engine("ignorefiles", "discovery_exact_on_a_small_tree", "C14.bounded.discovery_exact_on_a_small_tree",
+PROPS["C14"]["thorough_engines"] = [_hist("ignorefiles", "negation_reincludes_a_direct_child", "C14", "a directory re-included by a negation in its parent's own ignore file is searched")] + [replay_engine("ignorefiles", "discovery_exact_on_a_small_tree", "C14.bounded.discovery_exact_on_a_small_tree",
     "from_origin on one hand-made tree (prefix-named siblings, two ignore files in one directory, an ignored subtree, a VCS metadata directory, an empty file, nested directories): exactly the applicable files, each tagged with its directory")]
 
 # Deterministic bounded executions of the real code run in the QUICK tier too (they take seconds, depend on no timing, and cover code the
